@@ -220,6 +220,22 @@ pub struct Stats {
     pub violations: Vec<Violation>,
     pub nviol: usize,
     pub samples: Vec<Value>,
+    /// advisory: how often the PasetoError variant predicted by the step-by-step model was the one observed
+    pub variant_total: usize,
+    pub variant_agree: usize,
+    pub variant_disagree: HashMap<String, usize>,
+}
+
+/// does the observed PasetoError variant correspond to the model's step name (advisory only)
+fn variant_matches(why: &str, observed: &str) -> bool {
+    match why {
+        "IncorrectSize" | "Short" => observed == "IncorrectSize",
+        "FooterInvalid" => observed == "FooterInvalid",
+        "WrongHeader" => observed == "WrongHeader",
+        "PayloadBase64Decode" => observed == "PayloadBase64Decode",
+        "Auth" => ["Cipher", "ChaChaCipherError", "InvalidSignature", "RsaCipher", "Signature", "ECSDAError", "InvalidKey"].contains(&observed),
+        _ => false,
+    }
 }
 
 impl Stats {
@@ -237,6 +253,11 @@ impl Stats {
         }
         self.distinct.extend(o.distinct);
         self.nviol += o.nviol;
+        self.variant_total += o.variant_total;
+        self.variant_agree += o.variant_agree;
+        for (k, v) in o.variant_disagree {
+            *self.variant_disagree.entry(k).or_insert(0) += v;
+        }
         for v in o.violations {
             if self.violations.len() < 40 {
                 self.violations.push(v);
@@ -489,6 +510,17 @@ pub fn replay_case(
                     ("tol", Out::Ok(_)) => st.tol_ok += 1,
                     ("tol", _) => st.tol_rej += 1,
                     _ => st.pre_seen += 1,
+                }
+                if let Out::ErrPre(variant) = &out {
+                    // advisory comparison of the exact error variant with the model's step (never an alarm)
+                    if !p.why.is_empty() && case.edits.len() <= 1 {
+                        st.variant_total += 1;
+                        if variant_matches(&p.why, variant) {
+                            st.variant_agree += 1;
+                        } else if st.variant_disagree.len() < 40 {
+                            *st.variant_disagree.entry(format!("{}->{}", p.why, variant)).or_insert(0) += 1;
+                        }
+                    }
                 }
                 let mut verdict = check_outcome(&p.exp, &out, &calls, msg, *layer);
                 let mut vprops = props.clone();
